@@ -257,6 +257,11 @@ def PrefixFilter.fromJson : Json → Option PrefixFilter
     match optPfx (lookup .prefixK l), optU32 (lookup .asn l), optStr (lookup .comment l) with
     | some p, some a, some c => some ⟨p, a, c⟩
     | _, _, _ => none
+  -- the sequence form serde derives for a struct: its fields in declaration order, none left out
+  | .arr [p, a, c] =>
+    (match optPfx (some p), optU32 (some a), optStr (some c) with
+     | some p, some a, some c => some ⟨p, a, c⟩
+     | _, _, _ => none)
   | _ => none
 
 def BgpsecFilter.fromJson : Json → Option BgpsecFilter
@@ -266,6 +271,11 @@ def BgpsecFilter.fromJson : Json → Option BgpsecFilter
     match optSki (lookup .ski l), optU32 (lookup .asn l), optStr (lookup .comment l) with
     | some s, some a, some c => some ⟨s, a, c⟩
     | _, _, _ => none
+  -- the sequence form serde derives for a struct: its fields in declaration order, none left out
+  | .arr [k, a, c] =>
+    (match optSki (some k), optU32 (some a), optStr (some c) with
+     | some s, some a, some c => some ⟨s, a, c⟩
+     | _, _, _ => none)
   | _ => none
 
 def AspaFilter.fromJson : Json → Option AspaFilter
@@ -274,6 +284,11 @@ def AspaFilter.fromJson : Json → Option AspaFilter
     match optU32 (lookup .customerAsid l), optStr (lookup .comment l) with
     | some a, some c => some ⟨a, c⟩
     | _, _ => none
+  -- the sequence form serde derives for a struct: its fields in declaration order, none left out
+  | .arr [a, c] =>
+    (match optU32 (some a), optStr (some c) with
+     | some a, some c => some ⟨a, c⟩
+     | _, _ => none)
   | _ => none
 
 def reqArr {α} (f : Json → Option α) : Option Json → Option (List α)
@@ -294,6 +309,12 @@ def Filters.fromJson : Json → Option Filters
           optArrFrom AspaFilter.fromJson (lookup .aspaFilters l) with
     | some p, some b, some a => some ⟨p, b, a⟩
     | _, _, _ => none
+  -- the sequence form serde derives for a struct: its fields in declaration order, none left out
+  | .arr [p, b, a] =>
+    (match reqArr PrefixFilter.fromJson (some p), reqArr BgpsecFilter.fromJson (some b),
+           optArrFrom AspaFilter.fromJson (some a) with
+     | some p, some b, some a => some ⟨p, b, a⟩
+     | _, _, _ => none)
   | _ => none
 
 def PrefixAssertion.fromJson : Json → Option PrefixAssertion
@@ -325,6 +346,11 @@ def BgpsecAssertion.fromJson : Json → Option BgpsecAssertion
     match reqU32 (lookup .asn l), reqSki (lookup .ski l), lookup .routerPublicKey l, optStr (lookup .comment l) with
     | some a, some s, some (.bytes k), some c => some ⟨a, s, k, c⟩
     | _, _, _, _ => none
+  -- the sequence form serde derives for a struct: its fields in declaration order, none left out
+  | .arr [a, k, key, c] =>
+    (match reqU32 (some a), reqSki (some k), key, optStr (some c) with
+     | some a, some s, .bytes k, some c => some ⟨a, s, k, c⟩
+     | _, _, _, _ => none)
   | _ => none
 
 def AspaAssertion.fromJson : Json → Option AspaAssertion
@@ -347,6 +373,12 @@ def Assertions.fromJson : Json → Option Assertions
           optArrFrom AspaAssertion.fromJson (lookup .aspaAssertions l) with
     | some p, some b, some a => some ⟨p, b, a⟩
     | _, _, _ => none
+  -- the sequence form serde derives for a struct: its fields in declaration order, none left out
+  | .arr [p, b, a] =>
+    (match reqArr PrefixAssertion.fromJson (some p), reqArr BgpsecAssertion.fromJson (some b),
+           optArrFrom AspaAssertion.fromJson (some a) with
+     | some p, some b, some a => some ⟨p, b, a⟩
+     | _, _, _ => none)
   | _ => none
 
 def SlurmFile.fromJson : Json → Option SlurmFile
@@ -356,6 +388,11 @@ def SlurmFile.fromJson : Json → Option SlurmFile
           (lookup .locallyAddedAssertions l).bind Assertions.fromJson with
     | some (.num v), some f, some a => if v = 1 ∨ v = 2 then some ⟨v, f, a⟩ else none
     | _, _, _ => none
+  -- the sequence form serde derives for a struct: its fields in declaration order, none left out
+  | .arr [v, f, a] =>
+    (match v, Filters.fromJson f, Assertions.fromJson a with
+     | .num v, some f, some a => if v = 1 ∨ v = 2 then some ⟨v, f, a⟩ else none
+     | _, _, _ => none)
   | _ => none
 
 end Rpki.Slurm
